@@ -8,12 +8,18 @@ Types and values travel in a prefix encoding, one token per word:
 
   ty  ::= t | ts | tw | ta | u | h <tag> <n> aty^n ty | p <n> ty^n | o ty | e <n> ty^n | v ty | a
         | r <n> ty        (t = String, ts = &'static str, tw = Cow<'static,str>, ta = Arc<str>; r = [T; n])
-  aty ::= s:<name> | os:<name> | b:<name> | c | oc | tc | y | py | opy
+        | x aty ty        (attribute spreading `view.add_any_attr(attr)`: value = attribute value, view value;
+                           the model adds the item to every top-level element: `Ty.spread` / `View.spread`)
+  aty ::= base | base~<f><c><k>     base ::= s:<name> | os:<name> | b:<name> | c | oc | tc | y | oy | py | opy
+          (the suffix names the Rust string type of the value / the `into_cloneable[_owned]()` conversion
+           the harness applies / the string type of a style property name: the model has one string type
+           and no conversions, the suffix is read over.  `oy` = `Style<Option<_>>` IS the optional named
+           attribute `style`: `.ostr "style"`)
   val(t*) = <hex> | <hexbuf>:<start>:<len>   val(r n ty) = val^n   val(u) = u             val(p ..) = the component values in order
   val(o ty) = n | s val     val(e ..) = <i> val    val(v ty) = <n> val^n      val(a) = ty val
   val(h ..) = the attribute values in order, then the child value (`u` for a void element)
   attribute values: s, c, y: <hex>; os, oc: n | s <hex>; b: 0|1; tc: <hex name> 0|1;
-                    py: <hex name> <hex value>; opy: <hex name> (n | s <hex>)
+                    py: <hex name> <hex value>; opy: <hex name> (n | s <hex>); oy: n | s <hex>
 
 Ops: `init <pre> <post>` (sibling kinds, letters t/c/e, `-` = none), `build ty val`,
 `rebuild val`, `unmount`.  Output: the children of the mount parent, ids renumbered by first
@@ -50,7 +56,8 @@ def parseN {α : Type} (p : P α) : Nat → P (List α)
     pure (a :: as, r)
 
 def parseATy (s : String) : Option AttrTy :=
-  match s.splitOn ":" with
+  match ((s.splitOn "~").headD s).splitOn ":" with
+  | ["oy"] => some (.ostr "style")
   | ["c"] => some .cls
   | ["oc"] => some .ocls
   | ["tc"] => some .tcls
@@ -66,7 +73,35 @@ def pATy : P AttrTy
   | h :: r => (parseATy h).map (·, r)
   | [] => none
 
-def parseTy : Nat → P Ty
+/-- types as they travel: `Ty` plus attribute spreading -/
+inductive PTy where
+  | text | unit | any
+  | arr (n : Nat) (t : PTy)
+  | elem (tag : String) (as : List AttrTy) (c : PTy)
+  | tuple (ts : List PTy)
+  | opt (t : PTy)
+  | either (ts : List PTy)
+  | vec (t : PTy)
+  | spread (a : AttrTy) (t : PTy)
+
+mutual
+def PTy.toTy : PTy → Ty
+  | .text => .text
+  | .unit => .unit
+  | .any => .any
+  | .arr n t => .arr n t.toTy
+  | .elem tag as c => .elem tag as c.toTy
+  | .tuple ts => .tuple (PTy.toTyList ts)
+  | .opt t => .opt t.toTy
+  | .either ts => .either (PTy.toTyList ts)
+  | .vec t => .vec t.toTy
+  | .spread a t => Ty.spread a t.toTy
+def PTy.toTyList : List PTy → List Ty
+  | [] => []
+  | t :: ts => t.toTy :: PTy.toTyList ts
+end
+
+def parseTy : Nat → P PTy
   | 0, _ => none
   | f + 1, toks =>
     match toks with
@@ -80,6 +115,10 @@ def parseTy : Nat → P Ty
       let n ← n.toNat?
       let (t, r) ← parseTy f r
       pure (.arr n t, r)
+    | "x" :: a :: r => do
+      let a ← parseATy a
+      let (t, r) ← parseTy f r
+      pure (.spread a t, r)
     | "u" :: r => some (.unit, r)
     | "a" :: r => some (.any, r)
     | "h" :: tag :: n :: r => do
@@ -135,14 +174,42 @@ def pAttrVals : List AttrTy → P (List AttrVal)
     let (as, r) ← pAttrVals ts r
     pure (a :: as, r)
 
-def parseSeq (p : Ty → P View) : List Ty → P (List View)
+/-- values as they travel: `View` plus attribute spreading, `AnyView` contents with their travelling type -/
+inductive PVal where
+  | text (s : String) | unit | onone
+  | elem (tag : String) (as : List AttrVal) (c : PVal)
+  | tuple (vs : List PVal)
+  | osome (v : PVal)
+  | either (n i : Nat) (v : PVal)
+  | vec (vs : List PVal)
+  | any (t : PTy) (v : PVal)
+  | spread (a : AttrVal) (v : PVal)
+
+mutual
+def PVal.toView : PVal → View
+  | .text s => .text s
+  | .unit => .unit
+  | .onone => .onone
+  | .elem tag as c => .elem tag as c.toView
+  | .tuple vs => .tuple (PVal.toViews vs)
+  | .osome v => .osome v.toView
+  | .either n i v => .either n i v.toView
+  | .vec vs => .vec (PVal.toViews vs)
+  | .any t v => .any t.toTy v.toView
+  | .spread a v => View.spread a v.toView
+def PVal.toViews : List PVal → List View
+  | [] => []
+  | v :: vs => v.toView :: PVal.toViews vs
+end
+
+def parseSeq (p : PTy → P PVal) : List PTy → P (List PVal)
   | [], r => some ([], r)
   | t :: ts, r => do
     let (a, r) ← p t r
     let (as, r) ← parseSeq p ts r
     pure (a :: as, r)
 
-def parseVal : Nat → Ty → P View
+def parseVal : Nat → PTy → P PVal
   | 0, _, _ => none
   | f + 1, ty, toks =>
     match ty, toks with
@@ -175,6 +242,10 @@ def parseVal : Nat → Ty → P View
       let (t, r) ← parseTy f r
       let (v, r) ← parseVal f t r
       pure (.any t v, r)
+    | .spread a t, r => do
+      let (av, r) ← pAttrVal a r
+      let (v, r) ← parseVal f t r
+      pure (.spread av v, r)
     | _, _ => none
 
 /-! canonical output -/
@@ -231,7 +302,7 @@ structure St where
   root2 : Id := 0
   pre : List Id := []
   post : List Id := []
-  ty : Option Ty := none
+  ty : Option PTy := none
   st : Option State := none
   names : Names := []
   /-- failure classes the history of values falls into (known-finding predicates) -/
@@ -274,16 +345,18 @@ def regionNorm (s : St) : Option String := do
   let ts ← serListN (s.dom.next + 1) s.dom mid
   pure (normTrees ts)
 
-def freshNorm (s : St) (v : View) : Option String := do
+/-- the fresh render, and whether building it logged a DOM error -/
+def freshNorm (s : St) (v : View) : Option (String × Bool) := do
   let (d, st) := build v s.dom
   let d := mount st d s.root2 none
   let ts ← serializeKids d s.root2
-  pure (normTrees ts)
+  pure (normTrees ts, d.errs.length != s.dom.errs.length)
 
 /-! known-finding classes: sticky flags over the values of the case (predicates of Model/View) -/
 
 def shapeFlags (v : View) : List String :=
   (if v.nodelessBranch then ["nodeless-old-branch"] else [])
+  ++ (if v.anyElem invalidToggle then ["invalid-class-token"] else [])
   ++ (if v.anyElem dupItem then ["dup-item"] else [])
   ++ (if v.anyElem classOverwrite then ["class-overwrite"] else [])
   ++ (if v.anyElem styleOverwrite then ["style-overwrite"] else [])
@@ -291,23 +364,31 @@ def shapeFlags (v : View) : List String :=
 def pairFlags (a b : View) : List String :=
   if View.anyElemPair dupItemPair a b then ["dup-item"] else []
 
-def addFlags (s : St) (v : View) : St :=
+def addFlags (s : St) (pv : PVal) : St :=
+  let v := pv.toView
   let fl := shapeFlags v ++ (match s.prev with | some a => pairFlags a v | none => [])
   { s with classes := s.classes ++ fl.filter (fun f => !s.classes.contains f), prev := some v }
 
 def classOrder : List String :=
-  ["nodeless-old-branch", "dup-item", "class-overwrite", "style-overwrite"]
+  ["nodeless-old-branch", "dup-item", "class-overwrite", "style-overwrite", "invalid-class-token"]
+
+/-- the DOM-error part of the verdict is explained by `invalid-class-token` only -/
+def errClass (s : St) : String :=
+  if s.classes.contains "invalid-class-token" then "fail invalid-class-token" else "fail dom-error"
 
 def verdict (s : St) (v : View) : String :=
   match regionNorm s, freshNorm s v with
-  | some a, some b =>
+  | some a, some (b, ferr) =>
     if a == b then
-      (if s.dom.errs.isEmpty then "ok" else "fail dom-error")
+      (if s.dom.errs.isEmpty && !ferr then "ok" else errClass s)
     else
       match classOrder.filter s.classes.contains with
       | c :: _ => "fail " ++ c
       | [] => "fail not-fresh"
   | _, _ => "fail unserialisable"
+
+/-- `take_errors()`: the log is emptied after every verdict -/
+def clearErrs (s : St) : St := { s with dom := { s.dom with errs := [] } }
 
 def failClass (s : St) (dflt : String) : String :=
   match classOrder.filter s.classes.contains with
@@ -320,7 +401,7 @@ def emit (s : St) (v : Option View) : St × String :=
   let (o, nm) := showKids s.dom s.names s.root
   let s := { s with names := nm }
   match v with
-  | some v => (s, o ++ " ## " ++ verdict s v)
+  | some v => (clearErrs s, o ++ " ## " ++ verdict s v)
   | none => (s, o)
 
 def step (s : St) (line : String) : St × String :=
@@ -341,21 +422,23 @@ def step (s : St) (line : String) : St × String :=
     match s.st, parseTy (rest.length + 1) rest with
     | none, some (ty, r) =>
       match parseVal (rest.length + 4096) ty r with
-      | some (v, []) =>
-        if !(ty.shapeOk && hasShape v ty) then (s, "bad-op") else
+      | some (pv, []) =>
+        let v := pv.toView
+        if !(ty.toTy.shapeOk && hasShape v ty.toTy) then (s, "bad-op") else
         let (d, st) := build v s.dom
         let d := mount st d s.root s.post.head?
-        emit (addFlags { s with dom := d, ty := some ty, st := some st } v) (some v)
+        emit (addFlags { s with dom := d, ty := some ty, st := some st } pv) (some v)
       | _ => (s, "bad-op")
     | _, _ => (s, "bad-op")
   | "rebuild" :: rest =>
     match s.st, s.ty with
     | some st, some ty =>
       match parseVal (rest.length + 4096) ty rest with
-      | some (v, []) =>
-        if !(ty.shapeOk && hasShape v ty) then (s, "bad-op") else
+      | some (pv, []) =>
+        let v := pv.toView
+        if !(ty.toTy.shapeOk && hasShape v ty.toTy) then (s, "bad-op") else
         let (d, st) := rebuild false v st s.dom
-        emit (addFlags { s with dom := d, st := some st } v) (some v)
+        emit (addFlags { s with dom := d, st := some st } pv) (some v)
       | _ => (s, "bad-op")
     | _, _ => (s, "bad-op")
   | ["unmount"] =>
@@ -365,7 +448,7 @@ def step (s : St) (line : String) : St × String :=
       let s := { s with dom := d, st := none }
       let (o, nm) := showKids s.dom s.names s.root
       let ok := s.dom.kidsOf s.root == s.pre ++ s.post && s.dom.errs.isEmpty
-      ({ s with names := nm }, o ++ " ## " ++ (if ok then "ok" else "fail unmount-residue"))
+      (clearErrs { s with names := nm }, o ++ " ## " ++ (if ok then "ok" else "fail unmount-residue"))
     | none => (s, "bad-op")
   | _ => (s, "bad-op")
 
